@@ -4,10 +4,10 @@ CONSTANTS
   ManyPairs <- Pairs1
   Data <- DataA
   NumberMode = "conforming"
-  MaxCalls = 4
-  GenTextIdx <- Idx2
-  Depth = 4
+  MaxCalls = 0
+  GenTextIdx <- Idx123
+  Depth = 0
 INIT HInit
 NEXT HNext
-INVARIANT Emit
+INVARIANT EmitSetup
 CHECK_DEADLOCK FALSE
